@@ -314,7 +314,11 @@ func (ex *explorer) worker(w int) {
 			v.Notes = append(sym.renderNotes(sym.model), msg)
 			sym.viol = append(sym.viol, v)
 		case boundExceeded:
-			ex.inconclusive("bound exceeded: " + o.why + " [events " + eventsString(sym.events[:sym.pos]) + "]")
+			ev := eventsString(sym.events[:sym.pos])
+			if len(ev) > 200 {
+				ev = ev[:200] + "..."
+			}
+			ex.inconclusive("bound exceeded: " + o.why + " [in " + strings.Join(in.stackNames(), " < ") + "] [events " + ev + "]")
 		case solverTrouble:
 			ex.inconclusive("solver: " + o.msg)
 			sym.slv.close()
